@@ -254,6 +254,25 @@ func progTwoSites() *LazyProgram {
 	}
 }
 
+// progTwoDeepSites: like progTwoSites, but both Fatalf calls sit below the same 40-deep recursion: only the
+// frames beyond the innermost 41 tell the two sites apart. The site found first needs the bigger input.
+func progTwoDeepSites() *LazyProgram {
+	p := progTwoSites()
+	p.Name = "two-sites-below-a-deep-recursion"
+	p.Base = func(ctx, d string) Beh {
+		var x, y int
+		fmt.Sscanf(d, "%d,%d", &x, &y)
+		switch {
+		case x >= 100 && y >= 10:
+			return BFatalDeepA
+		case x < 100 && y >= 50:
+			return BFatalDeepB
+		}
+		return BPass
+	}
+	return p
+}
+
 // progSameMessage: two pairs of failure sites whose messages coincide (FailNow at C and D, division by
 // zero at two places): only the call stack tells them apart. The site found first needs a bigger input.
 func progSameMessage() *LazyProgram {
@@ -433,6 +452,8 @@ func ExpectedText(b Beh, msg string) string {
 		return "site A (100%, %d %v): " + msg
 	case BCleanupSkipThenPanic, BCleanupRejectThenPanic:
 		return "boom %v 5% " + msg
+	case BFatalDeepA, BFatalDeepB:
+		return "deep site: " + msg
 	case BFatalB:
 		return "site B: " + msg
 	case BFailNowC, BFailNowD:
